@@ -4,6 +4,12 @@ mapping is read from the evidence files of the last quick run, so it is what act
 import json, glob, os
 ROOT = os.path.dirname(os.path.dirname(os.path.abspath(__file__)))
 DESC = {
+ "stale-topic-delete": "library level (XDT): two holders of a topic's handle; the first deletes, the name is created again, the second deletes; then Get / List / Create / Publish / Delete: per name, successful creates minus successful deletes says whether the topic exists (mon_topic_balance; the overlapping second delete may fail)",
+ "expiry-with-backlog": 'a lease runs out while the subscription holds unpulled messages (published later / left over by a small Pull / nacked / 40 queued) and nobody pulls: 250 ms after the deadline STATS no longer counts it as outstanding (mon_stats_lease)',
+ "wait-push-sub": 'the wait-enum cases (up to three waiting consumers x availability events) on a subscription that has a push endpoint (no push loop runs): woken like on any other subscription (mon_wait)',
+ "push-late-answer": 'the real push loop at 200..300 ms and an endpoint that accepts 700 ms after the request arrived (outcome late200), 10 s ack deadline: one POST per message, nothing outstanding or queued afterwards (mon_push_late_answer)',
+ "big-pull": 'unary Pulls for 1000..65535 messages on a backlog of 1002..2100 (three Publish requests), three more messages, Pulls across the ack deadline: what a Pull leases it returns (ack ids without a gap, STATS after the Pull), first deliveries in publish order (mon_pull_complete)',
+ "late-ack": 'library level (LACK): one acknowledge call per outstanding delivery, each awaited until it has returned, one second before the deadline; then, with nothing run in between, the clock moves past the deadline: nothing acknowledged is delivered again (mon_late_ack)',
  "mailstress": 'multi-thread stress: four lanes, per round a fresh subscription, six tasks holding its handle call it in a closed loop while it is deleted; a watchdog reports a caller without an answer 15 s after the deletion returned (C07-pending)',
  "backed-up-stream": 'a StreamingPull handler held at the hand-over of a batch (XS/XQ, client stopped reading) next to a blocked Pull / a read stream / two Pulls: a later Publish must reach the consumer that waits (mon_backed_up)',
  "push-delete": 'the real push loop in the middle of a page of 30..60 messages towards an endpoint that does not answer (hang / slow / reset), DeleteSubscription over gRPC after 1..10 POSTs (LOOPDEL): at most the POST on the wire arrives afterwards (mon_push_delete)',
